@@ -22,17 +22,19 @@ Local Arguments aget : simpl never.
    collectors and ANY schedule of their atomic steps: every call returns what the map answered at a linearization point inside
    the call, no call fails, and the index never names a dead location. *)
 
-Inductive aslot := ALive (k v : N) | ADead.
+Inductive aslot := ALive (k v : N) | ADead (k v : N).     (* a dead location keeps what it held: the bytes stay, only the size prefix is marked *)
 Record ast := { aidx : amap N; apri : amap aslot; afree : list N; anext : N }.
 Definition amapN := N -> option N.
 Definition mupd (m : amapN) (k v : N) : amapN := fun x => if x =? k then Some v else m x.
 Definition mdel (m : amapN) (k : N) : amapN := fun x => if x =? k then None else m x.
 
 Inductive aout := AErr | AOk | AVal (v : option N) | ABool (b : bool).
-Inductive acall := APut (k v : N) | AGet (k : N) | ARemove (k : N) | APgc (n : nat) (reloc : list N).
+(* [AGet k cache]: cache = the primary still serves the record from its write pool (the last flushed batch) although the collector has marked
+   it dead in the file; a parked reader then answers the value it looked up instead of asking the index again *)
+Inductive acall := APut (k v : N) | AGet (k : N) (cache : bool) | ARemove (k : N) | APgc (n : nat) (reloc : list N).
 Inductive apc :=
 | AStart (c : acall)
-| AGetB (k b : N) (lin : aout)                 (* looked b up (linearization point if the read succeeds); next: read the primary *)
+| AGetB (k b : N) (lin : aout) (cache : bool)  (* looked b up (linearization point if the read succeeds); next: read the primary *)
 | APutA (k v : N)                              (* key lock held; next: look the key up (again) *)
 | APutR (k v b : N)                            (* next: read the primary at b, compare *)
 | APutB (k v : N) (prev : option N)            (* next: append the record (allocate a location) *)
@@ -49,7 +51,7 @@ Definition alloc (s : ast) (k v : N) : ast * N :=
   ({| aidx := aidx s; apri := aset (anext s) (ALive k v) (apri s); afree := afree s; anext := anext s + 1 |}, anext s).
 Definition kill (s : ast) (b : N) : ast :=
   match aget b (apri s) with
-  | Some (ALive _ _) => {| aidx := aidx s; apri := aset b ADead (apri s); afree := afree s; anext := anext s |}
+  | Some (ALive k v) => {| aidx := aidx s; apri := aset b (ADead k v) (apri s); afree := afree s; anext := anext s |}
   | _ => s
   end.
 Definition present (m : amapN) (k : N) : bool := match m k with Some _ => true | None => false end.
@@ -63,18 +65,20 @@ Definition unusable (s : ast) (k b : N) : option ast :=       (* Some s' = entry
 
 Definition astep (s : ast) (m : amapN) (p : apc) : ast * amapN * apc :=
   match p with
-  | AStart (AGet k) =>
+  | AStart (AGet k c) =>
       match aget k (aidx s) with
       | None => (s, m, ADone (AVal None) (AVal (m k)))
-      | Some b => (s, m, AGetB k b (AVal (m k)))
+      | Some b => (s, m, AGetB k b (AVal (m k)) c)
       end
-  | AGetB k b lin =>
+  | AGetB k b lin c =>
+      let retry := match unusable s k b with
+                   | Some s' => (s', m, ADone (AVal None) lin)
+                   | None => (s, m, AStart (AGet k c))
+                   end in
       match aget b (apri s) with
       | Some (ALive k' v) => if k' =? k then (s, m, ADone (AVal (Some v)) lin) else (s, m, ADone (AVal None) lin)
-      | _ => match unusable s k b with
-             | Some s' => (s', m, ADone (AVal None) lin)
-             | None => (s, m, AStart (AGet k))
-             end
+      | Some (ADead k' v) => if c then (if k' =? k then (s, m, ADone (AVal (Some v)) lin) else (s, m, ADone (AVal None) lin)) else retry
+      | None => retry
       end
   | AStart (APut k v) | APutA k v =>
       match aget k (aidx s) with
@@ -163,6 +167,8 @@ Definition aexec (c : acfg) (sched : list nat) : acfg := fold_left asched_step s
 Definition current (s : ast) (b : N) : Prop := exists k, aget k (aidx s) = Some b.
 Definition live (s : ast) (b k v : N) : Prop := aget b (apri s) = Some (ALive k v).
 Definition notlive (s : ast) (b : N) : Prop := forall k v, aget b (apri s) <> Some (ALive k v).
+(* the location holds, or held before it was marked dead, the record (k, v): a location is written once *)
+Definition held (s : ast) (b k v : N) : Prop := live s b k v \/ aget b (apri s) = Some (ADead k v).
 
 Record SInv (s : ast) (m : amapN) : Prop := {
   i_cur : forall k b, aget k (aidx s) = Some b -> exists v, live s b k v /\ m k = Some v;
@@ -177,7 +183,7 @@ Definition todo_of (p : apc) : list N := match p with AGcDel todo _ => todo | _ 
 
 Definition aknow (s : ast) (m : amapN) (p : apc) : Prop :=
   match p with
-  | AGetB k b lin => b < anext s /\ ((exists v, live s b k v /\ lin = AVal (Some v)) \/ notlive s b)
+  | AGetB k b lin _ => b < anext s /\ exists v, held s b k v /\ lin = AVal (Some v)
   | APutR k v b => b < anext s /\ ((exists v0, live s b k v0 /\ m k = Some v0) \/ notlive s b)
   | APutB k v (Some _) => exists v0, m k = Some v0
   | APutB k v None => m k = None
@@ -219,7 +225,7 @@ Lemma notlive_not_current s m b : SInv s m -> notlive s b -> ~ current s b.
 Proof. intros I Hn Hc. destruct (current_live s m b I Hc) as (k & v & Hl). apply (Hn k v Hl). Qed.
 Lemma live_or_not s b : (exists k v, live s b k v) \/ notlive s b.
 Proof.
-  unfold live, notlive. destruct (aget b (apri s)) as [[k v|]|]; [left; eauto|right; intros; discriminate|right; intros; discriminate].
+  unfold live, notlive. destruct (aget b (apri s)) as [[k v|k v]|]; [left; eauto|right; intros; discriminate|right; intros; discriminate].
 Qed.
 
 (* alloc *)
@@ -249,9 +255,10 @@ Qed.
 Lemma kill_spec s b :
   aidx (kill s b) = aidx s /\ afree (kill s b) = afree s /\ anext (kill s b) = anext s /\ notlive (kill s b) b /\
   (forall b0 k v, b0 <> b -> (live (kill s b) b0 k v <-> live s b0 k v)) /\
-  (forall b0, notlive s b0 -> notlive (kill s b) b0).
+  (forall b0, notlive s b0 -> notlive (kill s b) b0) /\
+  (forall b0 k v, held s b0 k v -> held (kill s b) b0 k v).
 Proof.
-  unfold kill. destruct (aget b (apri s)) as [[k v|]|] eqn:E; cbn.
+  unfold kill. destruct (aget b (apri s)) as [[k v|k v]|] eqn:E; cbn.
   - repeat split; auto.
     + unfold notlive; cbn. intros k0 v0. rewrite aget_aset_same. discriminate.
     + unfold live; cbn. rewrite aget_aset_other by auto. auto.
@@ -259,17 +266,31 @@ Proof.
     + intros b0 Hn k0 v0. unfold notlive in Hn. cbn. destruct (N.eq_dec b0 b) as [->|Hne].
       * rewrite aget_aset_same. discriminate.
       * rewrite aget_aset_other by auto. apply Hn.
+    + intros b0 k0 v0 [Hl|Hd]; unfold held, live in *; cbn; destruct (N.eq_dec b0 b) as [->|Hne].
+      * right. rewrite aget_aset_same. congruence.
+      * left. rewrite aget_aset_other by auto. exact Hl.
+      * congruence.
+      * right. rewrite aget_aset_other by auto. exact Hd.
   - repeat split; auto; try tauto. unfold notlive. intros k0 v0. rewrite E. discriminate.
   - repeat split; auto; try tauto. unfold notlive. intros k0 v0. rewrite E. discriminate.
 Qed.
+Lemma held_alloc s k v b k0 v0 : (forall b1 sl, aget b1 (apri s) = Some sl -> b1 < anext s) ->
+  held s b k0 v0 -> held (fst (alloc s k v)) b k0 v0.
+Proof.
+  intros Hal H. assert (Hne : b <> anext s).
+  { destruct H as [H|H]; [apply Hal in H|apply Hal in H]; lia. }
+  unfold held, live in *. cbn. rewrite !aget_aset_other by exact Hne. exact H.
+Qed.
+Lemma held_fun s b k1 v1 k2 v2 : held s b k1 v1 -> held s b k2 v2 -> k1 = k2 /\ v1 = v2.
+Proof. unfold held, live. intros [H1|H1] [H2|H2]; rewrite H1 in H2; inversion H2; auto. Qed.
 Lemma sinv_kill s m b : SInv s m -> ~ current s b -> SInv (kill s b) m.
 Proof.
-  intros I Hnc. destruct (kill_spec s b) as (Hi & Hf & Hn & Hd & Ho & _).
+  intros I Hnc. destruct (kill_spec s b) as (Hi & Hf & Hn & Hd & Ho & _ & _).
   constructor.
   - intros k0 b0 Hk. rewrite Hi in Hk. destruct (i_cur s m I k0 b0 Hk) as (v0 & Hl0 & Hm). exists v0. split; [|exact Hm].
     apply Ho; [|exact Hl0]. intros ->. apply Hnc. exists k0. exact Hk.
   - intros k0 v0 Hm. rewrite Hi. apply (i_map s m I k0 v0 Hm).
-  - intros b0 sl Hb. rewrite Hn. unfold kill in Hb. destruct (aget b (apri s)) as [[k v|]|] eqn:E; cbn in Hb.
+  - intros b0 sl Hb. rewrite Hn. unfold kill in Hb. destruct (aget b (apri s)) as [[k v|k v]|] eqn:E; cbn in Hb.
     + destruct (N.eq_dec b0 b) as [->|Hne]; [apply (i_alloc s m I b _ E)|]. rewrite aget_aset_other in Hb by auto. apply (i_alloc s m I b0 sl Hb).
     + apply (i_alloc s m I b0 sl Hb).
     + apply (i_alloc s m I b0 sl Hb).
@@ -382,18 +403,17 @@ Lemma aknow_stable s m s1 m1 q (kw killed : option N) :
   (forall k, kw <> Some k -> m1 k = m k) ->
   (forall k, aholds q = Some k -> kw <> Some k) ->
   (forall b, infl q = Some b -> killed <> Some b) ->
+  (forall b k v, held s b k v -> held s1 b k v) ->
   aknow s m q -> aknow s1 m1 q.
 Proof.
-  intros Hn Hlive Hdead Hkill Hm Hk Hinf.
+  intros Hn Hlive Hdead Hkill Hm Hk Hinf Hheld.
   assert (Keep : forall b k v, live s b k v -> live s1 b k v \/ notlive s1 b).
   { intros b k v Hl. destruct killed as [b0|]; [destruct (N.eq_dec b0 b) as [->|Hne]|].
     - right. apply Hkill. reflexivity.
     - left. apply (Hlive b k v Hl). congruence.
     - left. apply (Hlive b k v Hl). discriminate. }
-  destruct q as [c|k b lin|k v|k v b|k v prev|k v prev loc|k|k b|k b|todo reloc|reloc|old k v copy reloc|r lin]; cbn [aknow aholds infl] in *; auto.
-  - intros (Hb & H). split; [lia|]. destruct H as [(v & Hl & ->)|Hd].
-    + destruct (Keep b k v Hl) as [H1|H1]; [left; eauto|right; exact H1].
-    + right. apply Hdead; auto.
+  destruct q as [c|k b lin ch|k v|k v b|k v prev|k v prev loc|k|k b|k b|todo reloc|reloc|old k v copy reloc|r lin]; cbn [aknow aholds infl] in *; auto.
+  - intros (Hb & v & Hh & ->). split; [lia|]. exists v. split; [apply Hheld; exact Hh|reflexivity].
   - intros (Hb & H). split; [lia|]. destruct H as [(v0 & Hl & Hm0)|Hd].
     + destruct (Keep b k v0 Hl) as [H1|H1]; [left|right; exact H1]. exists v0. split; [exact H1|]. rewrite Hm; [exact Hm0|]. apply Hk. reflexivity.
     + right. apply Hdead; auto.
@@ -423,6 +443,7 @@ Lemma achange s1 m1 p' (kw killed : option N) :
   (forall b k v, live s b k v -> killed <> Some b -> live s1 b k v) ->
   (forall b, b < anext s -> notlive s b -> notlive s1 b) ->
   (forall b, killed = Some b -> notlive s1 b /\ In b (todo_of p)) ->
+  (forall b k v, held s b k v -> held s1 b k v) ->
   (forall k, kw <> Some k -> m1 k = m k) -> (forall k, kw = Some k -> aholds p = Some k) ->
   (forall b, current s1 b -> current s b \/ infl p = Some b) ->
   (forall b, In b (afree s1) -> In b (afree s) \/ current s b \/ infl p = Some b) ->
@@ -438,7 +459,7 @@ Lemma achange s1 m1 p' (kw killed : option N) :
                  current s1 b \/ In b (afree s1) \/ infl p' = Some b \/ In b (todo_of p')) ->
   AInv (s1, m1, set_nth t p' ps).
 Proof.
-  intros I1 Hn Hlive Hdead Hkill Hm Hkw Hcur Hfree Kp' Hinf' Htodo' Hlock' Hnd' Hnew Hacct.
+  intros I1 Hn Hlive Hdead Hkill Hheld Hm Hkw Hcur Hfree Kp' Hinf' Htodo' Hlock' Hnd' Hnew Hacct.
   destruct HI as [I0 Hk Hif Htd Hex Hlk Hnd Hac]. cbn [fst snd] in *.
   assert (Other : forall j q, j <> t -> nth_error (set_nth t p' ps) j = Some q -> nth_error ps j = Some q).
   { intros j q Hne Hq. rewrite nth_set_nth_other in Hq by auto. exact Hq. }
@@ -580,6 +601,7 @@ Proof.
     - intros b k0 v0 H0 _. apply Hkeep; exact H0.
     - intros b Hb Hd k0 v0 H0. apply (Hd k0 v0). apply Ho; [lia|exact H0].
     - intros; discriminate.
+    - intros b k0 v0 H0. apply held_alloc; [apply (i_alloc s m I0)|exact H0].
     - reflexivity.
     - intros; discriminate.
     - intros b (k0 & Hk0). left. exists k0. rewrite Hi in Hk0. exact Hk0.
@@ -613,13 +635,13 @@ Proof.
       + right. left. cbn. apply in_or_app. left. exact H.
       + right. left. cbn. apply in_or_app. right. left. congruence.
       + rewrite Ht0 in H. destruct H. }
-  destruct p as [[k v|k|k|n reloc]|k b lin|k v|k v b|k v prev|k v prev loc|k|k b|k b|todo reloc|reloc|old k v copy reloc|r lin]; cbn [astep].
+  destruct p as [[k v|k ch|k|n reloc]|k b lin ch|k v|k v b|k v prev|k v prev loc|k|k b|k b|todo reloc|reloc|old k v copy reloc|r lin]; cbn [astep].
   - (* Put: acquire the key lock, look the key up *)
     apply PutLook; try reflexivity. intros k0 ->. right. cbn [ablocked] in Hblk. intros j q _ Hq. apply (aholds_fresh ps k Hblk j q Hq).
   - (* Get: look the key up *)
     destruct (aget k (aidx s)) as [b|] eqn:Hk.
     + apply (asame s m ps t _ HI Hp); [|no_infl|no_todo|intros k0 H; discriminate H|try reflexivity; try assumption|try reflexivity; try assumption].
-      cbn [aknow]. destruct (Look k b Hk) as (Hb & v0 & Hl & Hm). split; [exact Hb|]. left. exists v0. rewrite Hm. auto.
+      cbn [aknow]. destruct (Look k b Hk) as (Hb & v0 & Hl & Hm). split; [exact Hb|]. exists v0. rewrite Hm. split; [left; exact Hl|reflexivity].
     + apply (asame s m ps t _ HI Hp); [|no_infl|no_todo|intros k0 H; discriminate H|try reflexivity; try assumption|try reflexivity; try assumption].
       cbn [aknow]. rewrite (map_none_of_no_entry s m k I0 Hk). split; [reflexivity|discriminate].
   - (* Remove: acquire the key lock, look the key up *)
@@ -632,23 +654,25 @@ Proof.
     + cbn. apply nodup_skipn. apply (a_nodup _ HI).
     + intros b k0 v0 _ [H|[H|[H|H]]]; [left; exact H| |discriminate H|destruct H].
       cbn [afree with_free todo_of]. rewrite <- (firstn_skipn n (afree s)) in H. apply in_app_or in H. destruct H as [H|H]; auto.
-  - (* Get: read the primary *)
-    cbn [aknow] in Kp. destruct Kp as (Hb & Hcase).
-    assert (Dead : notlive s b -> AInv (let '(s', m', p') := match unusable s k b with Some s' => (s', m, ADone (AVal None) lin) | None => (s, m, AStart (AGet k)) end in (s', m', set_nth t p' ps))).
+  - (* Get: read the primary - or the copy the primary still has in its write pool *)
+    cbn [aknow] in Kp. destruct Kp as (Hb & v0 & Hh & ->). cbv zeta.
+    assert (Retry : notlive s b -> AInv (let '(s', m', p') := match unusable s k b with Some s' => (s', m, ADone (AVal None) (AVal (Some v0))) | None => (s, m, AStart (AGet k ch)) end in (s', m', set_nth t p' ps))).
     { intros Hd. rewrite (unusable_none s m k b I0 Hd). apply (asame s m ps t _ HI Hp); [exact I|no_infl|no_todo|intros k0 H; discriminate H|try reflexivity; try assumption|try reflexivity; try assumption]. }
-    destruct (aget b (apri s)) as [[k' v'|]|] eqn:E.
-    + destruct Hcase as [(v0 & Hl & ->)|Hd]; [|exfalso; apply (Hd k' v' E)].
-      unfold live in Hl. rewrite E in Hl. inversion Hl; subst k' v'. rewrite N.eqb_refl.
-      apply (asame s m ps t _ HI Hp); [split; [reflexivity|discriminate]|no_infl|no_todo|intros k0 H; discriminate H|try reflexivity; try assumption|try reflexivity; try assumption].
-    + apply Dead. intros k0 v0 H0. rewrite E in H0. discriminate.
-    + apply Dead. intros k0 v0 H0. rewrite E in H0. discriminate.
+    assert (Found : AInv (s, m, set_nth t (ADone (AVal (Some v0)) (AVal (Some v0))) ps)).
+    { apply (asame s m ps t _ HI Hp); [split; [reflexivity|discriminate]|no_infl|no_todo|intros k0 H; discriminate H|try reflexivity; try assumption|try reflexivity; try assumption]. }
+    destruct (aget b (apri s)) as [[k' v'|k' v']|] eqn:E.
+    + destruct (held_fun s b k v0 k' v' Hh (or_introl E)) as [<- <-]. rewrite N.eqb_refl. exact Found.
+    + destruct (held_fun s b k v0 k' v' Hh (or_intror E)) as [<- <-]. destruct ch.
+      * rewrite N.eqb_refl. exact Found.
+      * apply Retry. intros k0 v1 H0. rewrite E in H0. discriminate.
+    + exfalso. destruct Hh as [H|H]; unfold live in *; rewrite E in H; discriminate.
   - (* Put: look the key up again (lock held) *)
     apply PutLook; try reflexivity. intros k0 ->. left. reflexivity.
   - (* Put: read the primary, compare *)
     cbn [aknow] in Kp. destruct Kp as (Hb & Hcase).
     assert (Dead : notlive s b -> AInv (let '(s', m', p') := match unusable s k b with Some s' => (s', m, APutB k v None) | None => (s, m, APutA k v) end in (s', m', set_nth t p' ps))).
     { intros Hd. rewrite (unusable_none s m k b I0 Hd). apply (asame s m ps t _ HI Hp); [exact I|no_infl|no_todo|lock_left|try reflexivity; try assumption|try reflexivity; try assumption]. }
-    destruct (aget b (apri s)) as [[k' v'|]|] eqn:E.
+    destruct (aget b (apri s)) as [[k' v'|k' v']|] eqn:E.
     + destruct Hcase as [(v0 & Hl & Hm)|Hd]; [|exfalso; apply (Hd k' v' E)].
       unfold live in Hl. rewrite E in Hl. inversion Hl; subst k' v'. rewrite N.eqb_refl.
       destruct (v0 =? v).
@@ -700,7 +724,7 @@ Proof.
     cbn [aknow] in Kp. destruct Kp as (Hb & Hcase).
     assert (Dead : notlive s b -> AInv (let '(s', m', p') := match unusable s k b with Some s' => (s', m, ADone (ABool false) (ABool (present m k))) | None => (s, m, ARemA k) end in (s', m', set_nth t p' ps))).
     { intros Hd. rewrite (unusable_none s m k b I0 Hd). apply (asame s m ps t _ HI Hp); [exact I|no_infl|no_todo|lock_left|try reflexivity; try assumption|try reflexivity; try assumption]. }
-    destruct (aget b (apri s)) as [[k' v'|]|] eqn:E.
+    destruct (aget b (apri s)) as [[k' v'|k' v']|] eqn:E.
     + destruct Hcase as [(v0 & Hl & Hm)|Hd]; [|exfalso; apply (Hd k' v' E)].
       unfold live in Hl. rewrite E in Hl. inversion Hl; subst k' v'. rewrite N.eqb_refl.
       apply (asame s m ps t _ HI Hp); [cbn [aknow]; eauto|no_infl|no_todo|lock_left|try reflexivity; try assumption|try reflexivity; try assumption].
@@ -728,7 +752,7 @@ Proof.
     destruct todo as [|b todo].
     + apply (asame s m ps t _ HI Hp); [exact I|no_infl|no_todo|intros k0 H; discriminate H|try reflexivity; try assumption|try reflexivity; try assumption].
     + destruct (a_todo _ HI t _ b Hp (or_introl eq_refl)) as [Hnc Hlt]. cbn [fst snd] in Hnc, Hlt.
-      destruct (kill_spec s b) as (Hi & Hf & Hn & Hd & Ho & Hkeepd).
+      destruct (kill_spec s b) as (Hi & Hf & Hn & Hd & Ho & Hkeepd & Hkeeph).
       apply (achange s m ps t _ HI Hp (kill s b) m (AGcDel todo reloc) None (Some b)); auto; try (intros; discriminate); try (rewrite Hn; lia).
       * apply sinv_kill; auto.
       * intros b0 k0 v0 H0 Hne. apply Ho; [congruence|exact H0].
@@ -746,7 +770,7 @@ Proof.
   - (* GC: relocate - read one record, copy it *)
     destruct reloc as [|b rest].
     + apply (asame s m ps t _ HI Hp); [split; [reflexivity|discriminate]|no_infl|no_todo|intros k0 H; discriminate H|try reflexivity; try assumption|try reflexivity; try assumption].
-    + destruct (aget b (apri s)) as [[k v|]|] eqn:E.
+    + destruct (aget b (apri s)) as [[k v|k1 v1]|] eqn:E.
       * unfold alloc at 1. cbv beta iota.
         apply (Alloc k v (AGcRelC b k v (anext s) rest)); [reflexivity|reflexivity|intros k0 H; discriminate H| |reflexivity|reflexivity].
         intros s' Hkeep Hl Hn. cbn [aknow]. split; [exact Hl|]. pose proof (i_alloc s m I0 b _ E). split; [lia|]. left. apply Hkeep. exact E.
@@ -858,8 +882,15 @@ Definition run_calls (s : ast) (m : amapN) (calls : list acall) : ast * amapN :=
   fold_left (fun sm c => let '(s1, m1, _) := aexec (fst sm, snd sm, [AStart c]) (repeat 0%nat 8) in (s1, m1)) calls (s, m).
 Example reader_across_overwrite_and_gc :
   let '(s0, m0) := run_calls aempty (fun _ => None) [APut 7 10] in
-  let '(s', m', ps) := aexec (s0, m0, map AStart [AGet 7; APut 7 11; APgc 5 []]) [0; 1; 1; 1; 1; 2; 2; 2; 0; 0; 0]%nat in
-  ps = [ADone (AVal (Some 11)) (AVal (Some 11)); ADone AOk AOk; AGcRel []] /\ aget 0 (apri s') = Some ADead.
+  let '(s', m', ps) := aexec (s0, m0, map AStart [AGet 7 false; APut 7 11; APgc 5 []]) [0; 1; 1; 1; 1; 2; 2; 2; 0; 0; 0]%nat in
+  ps = [ADone (AVal (Some 11)) (AVal (Some 11)); ADone AOk AOk; AGcRel []] /\ aget 0 (apri s') = Some (ADead 7 10).
+Proof. vm_compute. split; reflexivity. Qed.
+(* the same schedule when the primary still serves the old record from its write pool: the parked reader answers the value it looked up
+   (its linearization point is its lookup, which preceded the overwrite) *)
+Example reader_served_from_the_write_pool :
+  let '(s0, m0) := run_calls aempty (fun _ => None) [APut 7 10] in
+  let '(s', m', ps) := aexec (s0, m0, map AStart [AGet 7 true; APut 7 11; APgc 5 []]) [0; 1; 1; 1; 1; 2; 2; 2; 0; 0; 0]%nat in
+  ps = [ADone (AVal (Some 10)) (AVal (Some 10)); ADone AOk AOk; AGcRel []] /\ m' 7 = Some 11.
 Proof. vm_compute. split; reflexivity. Qed.
 Example writer_across_relocation :
   let '(s0, m0) := run_calls aempty (fun _ => None) [APut 7 10] in
@@ -874,7 +905,7 @@ Proof. vm_compute. repeat split; reflexivity. Qed.
    looked the key up, appended its record, handed the freelist over, marked every entry, copied a record, returned. *)
 Inductive atag := TLook | TStep | TAlloc | TDone | THand | TKilled | TCopy.
 Definition is_lookup_pc (p : apc) : bool :=
-  match p with AStart (APut _ _) | AStart (AGet _) | AStart (ARemove _) | APutA _ _ | ARemA _ => true | _ => false end.
+  match p with AStart (APut _ _) | AStart (AGet _ _) | AStart (ARemove _) | APutA _ _ | ARemA _ => true | _ => false end.
 Definition stop_after (tag : atag) (before after : apc) : bool :=
   match tag with
   | TLook => is_lookup_pc before
